@@ -119,9 +119,83 @@ def latin1_codec(ctx, direction, s, enc, errors):
     raise Unreached('%s with codec %r has no model' % (direction, enc))
 
 
+# ---------------------------------------------------------------------------
+# str.partition / find / rfind / split as word equations (z3 decides these, unlike indexof/substr terms)
+
+
+def _occurrence(ctx, s, sep, last=False):
+    """(found, head, tail) with s == head ++ sep ++ tail at the first (last) occurrence of the literal sep; one decomposition per term and path."""
+    cache = ctx.ghost.setdefault('$occurrence', {})
+    sep_t = _s(sep)
+    key = (s.t.get_id(), sep_t.get_id(), last)
+    if key in cache:
+        return cache[key][0]
+    if ctx.branch(z3.Contains(s.t, sep_t), label='contains-%s' % (_text(sep),)):
+        h, t = ctx.fresh_str('head', s.kind), ctx.fresh_str('tail', s.kind)
+        ctx.assume(mk_bool(s.t == z3.Concat(h.t, sep_t, t.t)))
+        if not last:  # no occurrence starts inside head
+            ctx.assume(mk_bool(z3.Not(z3.Contains(z3.Concat(h.t, _s(sep[:-1])) if len(sep) > 1 else h.t, sep_t))))
+        else:  # no occurrence starts after this one
+            ctx.assume(mk_bool(z3.Not(z3.Contains(z3.Concat(_s(sep[1:]), t.t) if len(sep) > 1 else t.t, sep_t))))
+        res = (True, h, t)
+    else:
+        res = (False, None, None)
+    cache[key] = (res, s.t, sep_t)
+    return res
+
+
+def _literal(x):
+    return isinstance(x, (str, bytes)) and len(x) > 0
+
+
+def _hook_partition(ctx, s, sep):
+    if not _literal(sep):
+        return NotImplemented
+    found, h, t = _occurrence(ctx, s, sep)
+    empty = '' if s.kind == 'str' else b''
+    return (h, sep, t) if found else (s, empty, empty)
+
+
+def _hook_find(ctx, s, sub, start=0):
+    if not _literal(sub) or not (isinstance(start, int) and start == 0):
+        return NotImplemented
+    found, h, t = _occurrence(ctx, s, sub)
+    return h.length() if found else -1
+
+
+def _hook_rfind(ctx, s, sub):
+    if not _literal(sub):
+        return NotImplemented
+    found, h, t = _occurrence(ctx, s, sub, last=True)
+    return h.length() if found else -1
+
+
+MAX_PIECES = 3
+
+
+def _split_model(ctx, s, sep, maxsplit=-1):
+    """s.split(sep) for at most MAX_PIECES pieces (harnesses assume the bound; beyond it the run stops as unreached)."""
+    if not _literal(sep) or maxsplit != -1:
+        raise Unreached('split with a symbolic separator or maxsplit')
+    out, rest = [], s
+    for _ in range(MAX_PIECES):
+        if not isinstance(rest, SStr):
+            return out + rest.split(sep)
+        found, h, t = _occurrence(ctx, rest, sep)
+        if not found:
+            return out + [rest]
+        out.append(h)
+        rest = t
+    if isinstance(rest, SStr) and ctx.branch(z3.Contains(rest.t, _s(sep)), label='more-pieces'):
+        raise Unreached('split into more than %d pieces' % (MAX_PIECES + 1))
+    return out + [rest]
+
+
 def _base_setup(reg, ex):
     reg.int_parser = int_model
     ex.codec_handler = latin1_codec
+    ex.str_hooks = {'partition': _hook_partition, 'find': _hook_find, 'rfind': _hook_rfind}
+    ex.split_handler = _split_model
 
 
 # ---------------------------------------------------------------------------
@@ -158,6 +232,7 @@ def neg_literal(v, name):
     """A header value '-' 1*DIGIT, with the instance of the int() axiom for it: int('-' d) == -int(d)."""
     d = v.str(name)
     v.assume(is_digits(d))
+    v.assume(digits_value(d) > 0)
     raw = '-' + d
     if isinstance(raw, SStr):
         v.assume(mk_bool(z3.And(PY_INT_OK(raw.t), PY_INT(raw.t) == -z3.StrToInt(d.t))))
@@ -169,11 +244,8 @@ def spec_content_length(v, raw, out, neg_digits=None):
     Invalid = v.real('falcon:HTTPInvalidHeader')
     escape_only_400(v, out)
     if neg_digits is not None:
-        if digits_value(neg_digits) > 0:
-            v.check('negative-number-is-invalid-header-400', out.exc is not None and out.exc.isa(Invalid))
-            v.cover('negative')
-        else:
-            v.check('minus-zero-reads-as-zero-or-400', out.exc.isa(Invalid) if out.exc is not None else out.value == 0)
+        v.check('negative-number-is-invalid-header-400', out.exc is not None and out.exc.isa(Invalid))
+        v.cover('negative')
         return
     if raw is None or Len(raw) == 0:
         v.check('absent-or-empty-is-None', out.exc is None and out.value is None)
@@ -313,8 +385,781 @@ def wsgi_range_unit(v):
     spec_range_unit(v, env.get('HTTP_RANGE'), out)
 
 
+# ---------------------------------------------------------------------------
+# opaque parsers: stand-ins that work in both modes (bound to the module-level name while the subject runs)
+
+
+def throw(v, cls, *args):
+    """Raise an exception of the interpreted program from a stub (both modes)."""
+    if v.concrete:
+        raise cls(*args)
+    raise PyRaise(ExcVal(cls, args, real=cls(*args)))
+
+
+@stubclass
+class Opaque:
+    """An object the contract only observes by identity (a datetime, a list of entity tags, ...)."""
+
+    def __init__(self, what):
+        self.what = what
+
+    def __repr__(self):
+        return '<%s>' % self.what
+
+
+@stubclass
+class Parser:
+    """An opaque parser: every call is recorded; it returns one of `results` (fresh objects) or raises ValueError."""
+
+    def __init__(self, v, label, results, may_raise=False):
+        self.v, self.label, self.mk_results, self.may_raise = v, label, results, may_raise
+        self.calls = []
+        self.returned = []
+        self.raised = 0
+
+    def __call__(self, *args, **kwargs):
+        v = self.v
+        self.calls.append((args, kwargs))
+        n = len(self.mk_results) + (1 if self.may_raise else 0)
+        k = v.choose(n, self.label + '-outcome')
+        if k == len(self.mk_results):
+            self.raised += 1
+            throw(v, ValueError, '%s: malformed value' % self.label)
+        r = self.mk_results[k]()
+        self.returned.append(r)
+        return r
+
+
+class patched:
+    """Rebind a module-level name of the (overlay) module while the subject runs: an opaque dependency."""
+
+    def __init__(self, v, module, name, value):
+        self.mod = v.real(module)
+        self.name = name
+        self.value = value
+
+    def __enter__(self):
+        self.saved = self.mod.__dict__[self.name]
+        setattr(self.mod, self.name, self.value)
+        return self.value
+
+    def __exit__(self, *a):
+        setattr(self.mod, self.name, self.saved)
+        return False
+
+
+def same_outcome(a, b):
+    """Two outcomes are the same value (identity for objects, equality for str/int) or the same exception class."""
+    if (a.exc is None) != (b.exc is None):
+        return False
+    if a.exc is not None:
+        return a.exc.cls is b.exc.cls
+    return same_value(a.value, b.value)
+
+
+def same_value(x, y):
+    if x is None or y is None:
+        return x is None and y is None
+    if isinstance(x, (SStr, str, bytes, int)) or isinstance(y, (SStr, str, bytes, int)) or hasattr(x, 't') or hasattr(y, 't'):
+        return x == y
+    if isinstance(x, (list, tuple)) and isinstance(y, (list, tuple)):
+        return len(x) == len(y) and And(*[same_value(a, b) for a, b in zip(x, y)])
+    return x is y
+
+
+# ---------------------------------------------------------------------------
+# get_header / get_header_as_int / get_header_as_datetime and the date properties
+
+
+def norm_name(name):
+    """WSGI environ spelling of a header name (PEP 3333): upper-cased, '-' -> '_'."""
+    return name.upper().replace('-', '_')
+
+
+@harness(PROP, WREQ + '.get_header', setup=_base_setup)
+def wsgi_get_header(v):
+    env = wsgi_env(v, optional=['HTTP_X_TOKEN', 'CONTENT_TYPE', 'CONTENT_LENGTH'])
+    req = wsgi_req(v, env)
+    name = v.str('name')
+    required = bool(v.choose(2, 'required'))
+    default = v.str('default') if v.choose(2, 'default-given') else None
+    out = v.call(req, name, required=required, default=default)
+    escape_only_400(v, out)
+    norm = norm_name(name)
+    key = 'HTTP_' + norm
+    found = None
+    for k in env:
+        if k.startswith('HTTP_') and key == k:
+            found = env[k]
+            break
+    if found is None:
+        for k in ('CONTENT_TYPE', 'CONTENT_LENGTH'):
+            if k in env and norm == k:
+                found = env[k]
+                v.cover('content-header')
+                break
+    if found is not None:
+        v.check('present-header-returns-its-value', out.exc is None and out.value is not None and out.value == found)
+        v.cover('present')
+    elif required:
+        v.check('missing-required-header-raises-missing-header-400', out.exc is not None and out.exc.isa(v.real('falcon:HTTPMissingHeader')))
+        v.cover('missing-required')
+    else:
+        v.check('missing-optional-header-returns-the-default', out.exc is None and same_value(out.value, default))
+        v.cover('missing-optional')
+
+
+def _hook_replace_uf(ctx, s, old, new):
+    """s.replace(old, new) as an uninterpreted function of s (sound abstraction: the clause below needs congruence only)."""
+    if not (_literal(old) and isinstance(new, (str, bytes))):
+        return NotImplemented
+    f = z3.Function('str.replace[%s->%s]' % (_text(old), _text(new)), z3.StringSort(), z3.StringSort())
+    return SStr(f(s.t), s.kind)
+
+
+def _abstract_setup(reg, ex):
+    _base_setup(reg, ex)
+    ex.str_hooks = dict(ex.str_hooks, replace=_hook_replace_uf)
+
+
+@harness(PROP, WREQ + '.get_header', name='wsgi_get_header_case_insensitive', setup=_abstract_setup)
+def wsgi_get_header_case_insensitive(v):
+    """get_header(name) depends on name only through name.upper().replace('-', '_')."""
+    env = wsgi_env(v, optional=['HTTP_X_TOKEN', 'CONTENT_TYPE'])
+    req = wsgi_req(v, env)
+    n1, n2 = v.str('name1'), v.str('name2')
+    v.assume(norm_name(n1) == norm_name(n2))
+    required = bool(v.choose(2, 'required'))
+    o1 = v.call(req, n1, required=required)
+    o2 = v.call(req, n2, required=required)
+    v.check('lookup-depends-on-the-name-only-through-its-uppercased-form', same_outcome(o1, o2))
+    v.cover('two-spellings')
+
+
+@harness(PROP, WREQ + '.get_header', name='wsgi_get_header_casings', setup=_base_setup)
+def wsgi_get_header_casings(v):
+    """Concrete spellings of one header name all find the same environ entry (replayable instance of the clause above)."""
+    env = wsgi_env(v, always=['HTTP_X_TOKEN'])
+    req = wsgi_req(v, env)
+    name = v.one_of('spelling', 'X-Token', 'x-token', 'X-TOKEN', 'x-ToKeN', 'x_token')
+    out = v.call(req, name, required=True)
+    v.check('any-casing-of-the-name-finds-the-header', out.exc is None and out.value == env['HTTP_X_TOKEN'])
+
+
+@harness(PROP, WREQ + '.get_header_as_int', setup=_base_setup, inline=[WREQ + '.get_header'])
+def wsgi_get_header_as_int(v):
+    env = wsgi_env(v, optional=['HTTP_X_COUNT'])
+    req = wsgi_req(v, env)
+    required = bool(v.choose(2, 'required'))
+    out = v.call(req, 'X-Count', required=required)
+    raw = env.get('HTTP_X_COUNT')
+    escape_only_400(v, out)
+    if raw is None:
+        if required:
+            v.check('missing-required-header-raises-missing-header-400', out.exc is not None and out.exc.isa(v.real('falcon:HTTPMissingHeader')))
+        else:
+            v.check('missing-optional-header-is-None', out.exc is None and out.value is None)
+        return
+    if is_digits(raw):
+        v.check('digits-yield-their-value', out.exc is None and out.value is not None and out.value == digits_value(raw))
+        v.cover('digits')
+    elif not py_int_ok(raw):
+        ok = out.exc is not None and out.exc.isa(v.real('falcon:HTTPInvalidHeader'))
+        v.check('not-a-number-is-invalid-header-400', ok)
+        if ok:
+            v.check('invalid-header-names-the-header', header_name_of(out.exc) == 'X-Count')
+        v.cover('not-a-number')
+    else:
+        v.check('lenient-reading-is-an-int', out.exc is None and out.value is not None)
+
+
+def date_parser(v, may_raise=True):
+    return Parser(v, 'http_date_to_dt', [lambda: Opaque('datetime')], may_raise=may_raise)
+
+
+def spec_datetime(v, raw, required, parser, out, header, obs_date=False):
+    escape_only_400(v, out)
+    if raw is None:
+        v.check('missing-header-never-reaches-the-date-parser', len(parser.calls) == 0)
+        if required:
+            v.check('missing-required-header-raises-missing-header-400', out.exc is not None and out.exc.isa(v.real('falcon:HTTPMissingHeader')))
+        else:
+            v.check('missing-optional-header-is-None', out.exc is None and out.value is None)
+        v.cover('missing')
+        return
+    ok = len(parser.calls) == 1
+    v.check('date-parser-called-exactly-once', ok)
+    if not ok:
+        return
+    args, kwargs = parser.calls[0]
+    v.check('date-parser-receives-the-header-value', len(args) == 1 and args[0] == raw and kwargs == {'obs_date': obs_date})
+    if parser.raised:
+        good = out.exc is not None and out.exc.isa(v.real('falcon:HTTPInvalidHeader'))
+        v.check('unparseable-date-is-invalid-header-400', good)
+        if good:
+            v.check('invalid-header-names-the-header', header_name_of(out.exc) == header)
+        v.cover('unparseable')
+    else:
+        v.check('parsed-date-returned', out.exc is None and out.value is parser.returned[0])
+        v.cover('parsed')
+
+
+@harness(PROP, WREQ + '.get_header_as_datetime', setup=_base_setup, inline=[WREQ + '.get_header'])
+def wsgi_get_header_as_datetime(v):
+    env = wsgi_env(v, optional=['HTTP_X_WHEN'])
+    req = wsgi_req(v, env)
+    required = bool(v.choose(2, 'required'))
+    obs = bool(v.choose(2, 'obs_date'))
+    parser = date_parser(v)
+    with patched(v, 'falcon.util', 'http_date_to_dt', parser):
+        out = v.call(req, 'X-When', required=required, obs_date=obs)
+    spec_datetime(v, env.get('HTTP_X_WHEN'), required, parser, out, 'X-When', obs)
+
+
+def _date_property(header, key):
+    def h(v):
+        env = wsgi_env(v, optional=[key])
+        req = wsgi_req(v, env)
+        parser = date_parser(v)
+        with patched(v, 'falcon.util', 'http_date_to_dt', parser):
+            out = v.call(req)
+        spec_datetime(v, env.get(key), False, parser, out, header)
+
+    return h
+
+
+for _prop, _hdr, _key in (('date', 'Date', 'HTTP_DATE'), ('if_modified_since', 'If-Modified-Since', 'HTTP_IF_MODIFIED_SINCE'),
+                          ('if_unmodified_since', 'If-Unmodified-Since', 'HTTP_IF_UNMODIFIED_SINCE')):
+    harness(PROP, WREQ + '.' + _prop, name='wsgi_' + _prop, setup=_base_setup, inline=[WREQ + '.get_header', WREQ + '.get_header_as_datetime'])(_date_property(_hdr, _key))
+
+
+# --- falcon.util.misc.http_date_to_dt around strptime --------------------------------------------------
+
+MISC = 'falcon.util.misc'
+IMF_FIXDATE = '%a, %d %b %Y %H:%M:%S GMT'
+OBS_FORMATS = ['%a, %d %b %Y %H:%M:%S %Z', '%a, %d-%b-%Y %H:%M:%S %Z', '%A, %d-%b-%y %H:%M:%S %Z', '%a %b %d %H:%M:%S %Y']
+
+
+@stubclass
+class NaiveDT:
+    """What strptime returns: a naive datetime; replace(tzinfo=...) makes an aware copy."""
+
+    def __init__(self, fmt, tz=None):
+        self.fmt, self.tz = fmt, tz
+
+    def replace(self, **kw):
+        assert list(kw) == ['tzinfo']
+        return NaiveDT(self.fmt, kw['tzinfo'])
+
+
+@stubclass
+class Strptime:
+    """datetime.strptime: a datetime, or ValueError when the text does not match the format (library reference)."""
+
+    def __init__(self, v):
+        self.v = v
+        self.calls = []
+
+    def __call__(self, text, fmt):
+        self.calls.append((text, fmt))
+        if self.v.choose(2, 'strptime-matches') == 0:
+            throw(self.v, ValueError, 'time data does not match format')
+        return NaiveDT(fmt)
+
+
+@harness(PROP, MISC + ':http_date_to_dt', setup=_base_setup)
+def http_date_to_dt(v):
+    import datetime
+
+    text = v.str('http_date')
+    obs = bool(v.choose(2, 'obs_date'))
+    sp = Strptime(v)
+    with patched(v, MISC, '_strptime', sp):
+        out = v.call(text, obs_date=obs)
+    v.check('only-ValueError-escapes', out.exc is None or out.exc.isa(ValueError))
+    formats = OBS_FORMATS if obs else [IMF_FIXDATE]
+    n = len(sp.calls)
+    v.check('formats-tried-in-order-until-the-first-match', [c[1] for c in sp.calls] == formats[:n] and all(c[0] is text or c[0] == text for c in sp.calls))
+    if out.exc is None:
+        v.check('result-is-the-first-match-made-utc-aware', isinstance(out.value, NaiveDT) and out.value.fmt == sp.calls[-1][1] and out.value.tz is datetime.timezone.utc)
+        v.cover('parsed')
+    else:
+        v.check('ValueError-only-after-every-format-failed', n == len(formats))
+        v.cover('no-format-matches')
+
+
+# ---------------------------------------------------------------------------
+# memoised parser-backed properties: if_match / if_none_match, cookies / get_cookie_values, forwarded
+
+HELPERS = 'falcon.request_helpers'
+
+
+def clobber(v, env, keys):
+    """The environ changes behind the request's back: a memoised property must not notice."""
+    for k in keys:
+        env[k] = v.str(k + '_later')
+
+
+def _etag_property(key, field):
+    def h(v):
+        UNSET = v.real('falcon._typing:_UNSET')
+        env = wsgi_env(v, optional=[key])
+        req = wsgi_req(v, env)
+        raw = env.get(key)
+        # _parse_etags: a list of entity tags, or None for a value holding only blanks and commas; it never raises (ASSUMPTIONS)
+        parser = Parser(v, '_parse_etags', [lambda: [Opaque('etag')], lambda: None])
+        with patched(v, HELPERS, '_parse_etags', parser):
+            out = v.call(req)
+            escape_only_400(v, out)
+            if raw is None or Len(raw) == 0:
+                v.check('absent-or-empty-is-None', out.exc is None and out.value is None)
+                v.check('absent-or-empty-never-reaches-the-etag-parser', len(parser.calls) == 0)
+                v.cover('absent-or-empty')
+            else:
+                ok = len(parser.calls) == 1
+                v.check('etag-parser-called-exactly-once-with-the-header-value', ok and len(parser.calls[0][0]) == 1 and parser.calls[0][0][0] == raw)
+                if not ok:
+                    return
+                v.check('parsed-entity-tags-returned', out.exc is None and out.value is parser.returned[0])
+                v.cover('parsed')
+            n1 = len(parser.calls)
+            v.check('result-cached', v.get(req, field) is not UNSET and v.get(req, field) is out.value)
+            clobber(v, env, [key])
+            again = v.call(req)
+            v.check('second-access-returns-the-identical-value', again.exc is None and again.value is out.value)
+            v.check('second-access-does-not-parse-again', len(parser.calls) == n1)
+
+    return h
+
+
+harness(PROP, WREQ + '.if_match', name='wsgi_if_match', setup=_base_setup)(_etag_property('HTTP_IF_MATCH', '_cached_if_match'))
+harness(PROP, WREQ + '.if_none_match', name='wsgi_if_none_match', setup=_base_setup)(_etag_property('HTTP_IF_NONE_MATCH', '_cached_if_none_match'))
+
+
+def cookie_jar(v):
+    """What _parse_cookie_header returns: name -> non-empty list of values, in header order (ASSUMPTIONS)."""
+    k = v.choose(3, 'jar-shape')
+    if k == 0:
+        return {}
+    if k == 1:
+        return {'sid': [v.str('sid_1')]}
+    return {'sid': [v.str('sid_1'), v.str('sid_2')], 'theme': [v.str('theme_1')]}
+
+
+def cookie_parser(v):
+    return Parser(v, '_parse_cookie_header', [lambda: cookie_jar(v)])
+
+
+def dict_eq(got, want):
+    if not isinstance(got, dict) or sorted(got) != sorted(want):
+        return False
+    return And(*[got[k] == want[k] for k in want])
+
+
+@harness(PROP, WREQ + '.cookies', setup=_base_setup, inline=[WREQ + '.get_header', WREQ + '.get_cookie_values'])
+def wsgi_cookies(v):
+    env = wsgi_env(v, optional=['HTTP_COOKIE'])
+    req = wsgi_req(v, env)
+    raw = env.get('HTTP_COOKIE')
+    parser = cookie_parser(v)
+    with patched(v, HELPERS, '_parse_cookie_header', parser):
+        out = v.call(req)
+        escape_only_400(v, out)
+        if out.exc is not None:
+            return
+        if raw is None or Len(raw) == 0:
+            v.check('absent-or-empty-cookie-header-is-an-empty-mapping', isinstance(out.value, dict) and len(out.value) == 0 and len(parser.calls) == 0)
+            jar = {}
+            v.cover('no-cookies')
+        else:
+            ok = len(parser.calls) == 1 and len(parser.calls[0][0]) == 1
+            v.check('cookie-parser-called-exactly-once-with-the-header-value', ok and parser.calls[0][0][0] == raw)
+            if not ok:
+                return
+            jar = parser.returned[0]
+            v.check('each-cookie-maps-to-its-first-value', dict_eq(out.value, {n: vals[0] for n, vals in jar.items()}))
+            v.cover('cookies')
+        n1 = len(parser.calls)
+        clobber(v, env, ['HTTP_COOKIE'])
+        again = v.call(req)
+        v.check('second-access-returns-the-identical-mapping', again.exc is None and again.value is out.value)
+        name = v.one_of('cookie-name', 'sid', 'theme', 'absent')
+        vals = v.call(req, name, target=WREQ + '.get_cookie_values')
+        v.check('all-values-of-a-cookie-in-header-order-or-None', vals.exc is None and ((vals.value is jar[name]) if name in jar else vals.value is None))
+        v.check('later-accesses-do-not-parse-again', len(parser.calls) == n1)
+
+
+@harness(PROP, WREQ + '.get_cookie_values', setup=_base_setup, inline=[WREQ + '.get_header', WREQ + '.cookies'])
+def wsgi_get_cookie_values(v):
+    """get_cookie_values first, cookies second: one parse serves both."""
+    env = wsgi_env(v, optional=['HTTP_COOKIE'])
+    req = wsgi_req(v, env)
+    raw = env.get('HTTP_COOKIE')
+    parser = cookie_parser(v)
+    name = v.one_of('cookie-name', 'sid', 'absent')
+    with patched(v, HELPERS, '_parse_cookie_header', parser):
+        out = v.call(req, name)
+        escape_only_400(v, out)
+        if out.exc is not None:
+            return
+        if raw is None or Len(raw) == 0:
+            v.check('absent-or-empty-cookie-header-has-no-values', out.value is None and len(parser.calls) == 0)
+            jar = {}
+        else:
+            ok = len(parser.calls) == 1 and len(parser.calls[0][0]) == 1
+            v.check('cookie-parser-called-exactly-once-with-the-header-value', ok and parser.calls[0][0][0] == raw)
+            if not ok:
+                return
+            jar = parser.returned[0]
+            v.check('all-values-of-a-cookie-in-header-order-or-None', (out.value is jar[name]) if name in jar else out.value is None)
+            v.cover('values')
+        n1 = len(parser.calls)
+        clobber(v, env, ['HTTP_COOKIE'])
+        again = v.call(req, name)
+        v.check('second-access-returns-the-identical-value', again.exc is None and again.value is out.value)
+        c = v.call(req, target=WREQ + '.cookies')
+        v.check('cookies-after-get_cookie_values-uses-the-same-parse', c.exc is None and dict_eq(c.value, {n: vals[0] for n, vals in jar.items()}))
+        v.check('later-accesses-do-not-parse-again', len(parser.calls) == n1)
+
+
+# --- Forwarded -------------------------------------------------------------------------------------------
+
+
+def hop(v, i, fields=('src', 'host', 'scheme')):
+    """One forwarded-element as _parse_forwarded_header produces it: each parameter absent (None) or any string."""
+    vals = {}
+    for f in ('src', 'dest', 'host', 'scheme'):
+        vals[f] = v.str('hop%d_%s' % (i, f)) if f in fields and v.choose(2, 'hop%d-has-%s' % (i, f)) else None
+    return v.obj('falcon.forwarded:Forwarded', **vals)
+
+
+def forwarded_parser(v, max_hops=2, fields=('src', 'host', 'scheme')):
+    def mk():
+        n = v.choose(max_hops + 1, 'hops')
+        return [hop(v, i, fields) for i in range(n)]
+
+    return Parser(v, '_parse_forwarded_header', [mk])
+
+
+@harness(PROP, WREQ + '.forwarded', setup=_base_setup, inline=[WREQ + '.get_header'])
+def wsgi_forwarded(v):
+    env = wsgi_env(v, optional=['HTTP_FORWARDED'])
+    req = wsgi_req(v, env)
+    raw = env.get('HTTP_FORWARDED')
+    parser = forwarded_parser(v, max_hops=1, fields=())
+    with patched(v, WM, '_parse_forwarded_header', parser):
+        out = v.call(req)
+        escape_only_400(v, out)
+        if raw is None:
+            v.check('missing-header-is-None', out.exc is None and out.value is None and len(parser.calls) == 0)
+            v.cover('missing')
+            return
+        ok = len(parser.calls) == 1 and len(parser.calls[0][0]) == 1
+        v.check('forwarded-parser-called-exactly-once-with-the-header-value', ok and parser.calls[0][0][0] == raw)
+        if not ok:
+            return
+        v.check('parsed-elements-returned', out.exc is None and out.value is parser.returned[0])
+        v.check('result-cached', v.get(req, '_cached_forwarded') is out.value)
+        clobber(v, env, ['HTTP_FORWARDED'])
+        again = v.call(req)
+        v.check('second-access-returns-the-identical-list', again.exc is None and again.value is out.value)
+        v.check('second-access-does-not-parse-again', len(parser.calls) == 1)
+        v.cover('parsed')
+
+
+# ---------------------------------------------------------------------------
+# host / port / netloc / subdomain / scheme
+
+PARSE_HOST = 'falcon.util.uri:parse_host'
+SERVER_KEYS = ['SERVER_NAME', 'SERVER_PORT']
+
+
+def server_env(v, optional=(), host_value=NotImplemented):
+    """PEP 3333: SERVER_NAME, SERVER_PORT (decimal digits) and wsgi.url_scheme ('http' or 'https') are always present."""
+    env = {'wsgi.url_scheme': v.one_of('scheme', 'http', 'https')}
+    env['SERVER_NAME'] = v.str('SERVER_NAME')
+    env['SERVER_PORT'] = v.str('SERVER_PORT')
+    v.assume(is_digits(env['SERVER_PORT']))
+    if host_value is not NotImplemented:
+        if host_value is not None:
+            env['HTTP_HOST'] = host_value
+    elif v.choose(2, 'has-HTTP_HOST'):
+        env['HTTP_HOST'] = v.str('HTTP_HOST')
+    for k in optional:
+        if v.choose(2, 'has-' + k):
+            env[k] = v.str(k)
+    return env
+
+
+def default_port(env):
+    return 80 if env['wsgi.url_scheme'] == 'http' else 443
+
+
+def host_header(v):
+    """Shapes of a Host header value (RFC 9110 7.2 / RFC 3986 3.2: host [":" port]); shape 1 is any string at all."""
+    shape = v.choose(5, 'host-shape')
+    if shape == 0:
+        return shape, None, None
+    if shape == 1:
+        return shape, v.str('HTTP_HOST'), None
+    if shape == 2:  # reg-name / IPv4 with a decimal port
+        name, port = v.str('reg_name'), v.str('port')
+        v.assume(And(Not(contains(name, ':')), Not(name.startswith('[')), is_digits(port)))
+        return shape, name + ':' + port, (name, port)
+    if shape == 3:  # IP-literal with a decimal port
+        addr, port = v.str('ip_literal'), v.str('port')
+        v.assume(And(Not(contains(addr, ']')), is_digits(port)))
+        return shape, '[' + addr + ']:' + port, (addr, port)
+    addr = v.str('ip_literal')  # IP-literal without a port
+    v.assume(Not(contains(addr, ']')))
+    return shape, '[' + addr + ']', (addr, None)
+
+
+def spec_host_port(v, env, shape, parts, out, what):
+    """`what` is 'host' or 'port'.  RFC 3986 authority reading of the Host header, PEP 3333 SERVER_* otherwise."""
+    escape_only_400(v, out)
+    dflt = default_port(env)
+    raw = env.get('HTTP_HOST')
+
+    def expect(clause, host, port):
+        want = host if what == 'host' else port
+        v.check(clause, out.exc is None and out.value is not None and out.value == want)
+
+    if raw is None:
+        expect('without-host-header-the-server-name-and-port-are-used', env['SERVER_NAME'], digits_value(env['SERVER_PORT']))
+        v.cover('no-host-header')
+        return
+    if shape == 2:
+        expect('name-colon-digits-splits-into-host-and-port', parts[0], digits_value(parts[1]))
+        v.cover('name-port')
+        return
+    if shape == 3:
+        expect('bracketed-literal-with-port-splits-into-address-and-port', parts[0], digits_value(parts[1]))
+        v.cover('literal-port')
+        return
+    if shape == 4:
+        expect('bracketed-literal-without-port-gets-the-scheme-default-port', parts[0], dflt)
+        v.cover('literal')
+        return
+    # any string
+    if raw.startswith('['):
+        return
+    name, sep, rest = raw.partition(':')
+    if not sep:
+        expect('host-without-port-gets-the-scheme-default-port', raw, dflt)
+        v.cover('bare')
+    elif contains(rest, ':'):
+        if out.exc is None:
+            expect('several-colons-without-brackets-read-leniently-as-a-bare-address', raw, dflt)
+    elif is_digits(rest):
+        expect('name-colon-digits-splits-into-host-and-port', name, digits_value(rest))
+        v.cover('any-name-port')
+
+
+@harness(PROP, WREQ + '.host', setup=_base_setup, inline=[PARSE_HOST])
+def wsgi_host(v):
+    shape, raw, parts = host_header(v)
+    env = server_env(v, host_value=raw)
+    req = wsgi_req(v, env)
+    out = v.call(req)
+    spec_host_port(v, env, shape, parts, out, 'host')
+
+
+@harness(PROP, WREQ + '.port', setup=_base_setup, inline=[PARSE_HOST])
+def wsgi_port(v):
+    shape, raw, parts = host_header(v)
+    env = server_env(v, host_value=raw)
+    req = wsgi_req(v, env)
+    out = v.call(req)
+    spec_host_port(v, env, shape, parts, out, 'port')
+
+
+def spec_netloc(env):
+    """Expected netloc: the Host header verbatim, else SERVER_NAME with ':' SERVER_PORT unless that is the scheme's default port."""
+    if 'HTTP_HOST' in env:
+        return env['HTTP_HOST']
+    dflt = '80' if env['wsgi.url_scheme'] == 'http' else '443'
+    port = env['SERVER_PORT']
+    return Ite(port == dflt, env['SERVER_NAME'], env['SERVER_NAME'] + ':' + port)
+
+
+@harness(PROP, WREQ + '.netloc', setup=_base_setup, inline=[WREQ + '.scheme'])
+def wsgi_netloc(v):
+    env = server_env(v)
+    req = wsgi_req(v, env)
+    out = v.call(req)
+    escape_only_400(v, out)
+    if out.exc is not None:
+        return
+    if 'HTTP_HOST' in env:
+        v.check('host-header-is-the-netloc-verbatim', out.value == env['HTTP_HOST'])
+        return
+    dflt = '80' if env['wsgi.url_scheme'] == 'http' else '443'
+    port = env['SERVER_PORT']
+    v.check('port-omitted-iff-it-is-the-default-of-the-scheme', out.value == Ite(port == dflt, env['SERVER_NAME'], env['SERVER_NAME'] + ':' + port))
+    v.cover('server-name')
+
+
+@harness(PROP, WREQ + '.scheme', setup=_base_setup)
+def wsgi_scheme(v):
+    env = server_env(v)
+    req = wsgi_req(v, env)
+    out = v.call(req)
+    v.check('scheme-is-the-wsgi-url-scheme', out.exc is None and out.value == env['wsgi.url_scheme'])
+
+
+@harness(PROP, WREQ + '.subdomain', setup=_base_setup, inline=[PARSE_HOST, WREQ + '.host'])
+def wsgi_subdomain(v):
+    """subdomain is a function of req.host: the label before the first '.', None for a single label."""
+    env = server_env(v)
+    req = wsgi_req(v, env)
+    h = v.call(req, target=WREQ + '.host')
+    out = v.call(req)
+    escape_only_400(v, out)
+    if h.exc is not None:
+        v.check('host-failure-propagates-unchanged', out.exc is not None and out.exc.cls is h.exc.cls)
+        return
+    if contains(h.value, '.'):
+        v.check('subdomain-is-the-label-before-the-first-dot', out.exc is None and out.value is not None and out.value == h.value.partition('.')[0])
+        v.cover('dotted')
+    else:
+        v.check('single-label-host-has-no-subdomain', out.exc is None and out.value is None)
+        v.cover('single-label')
+
+
+# ---------------------------------------------------------------------------
+# forwarded_scheme / forwarded_host
+
+
+def lower(x):
+    return x.lower()
+
+
+def spec_forwarded_scheme(env, hops):
+    if 'HTTP_FORWARDED' in env:
+        if hops and hops[0].scheme is not None and _nonempty(hops[0].scheme):
+            return hops[0].scheme
+        return env['wsgi.url_scheme']
+    if 'HTTP_X_FORWARDED_PROTO' in env:
+        return lower(env['HTTP_X_FORWARDED_PROTO'])
+    return env['wsgi.url_scheme']
+
+
+def _nonempty(x):
+    """Harness-side fork on emptiness of a (possibly symbolic) string."""
+    return bool(Len(x) > 0)
+
+
+def spec_forwarded_host(env, hops):
+    if 'HTTP_FORWARDED' in env:
+        if hops and hops[0].host is not None and _nonempty(hops[0].host):
+            return hops[0].host
+        return spec_netloc(env)
+    if 'HTTP_X_FORWARDED_HOST' in env:
+        return env['HTTP_X_FORWARDED_HOST']
+    return spec_netloc(env)
+
+
+FWD_INLINE = [WREQ + '.get_header', WREQ + '.forwarded', WREQ + '.scheme', WREQ + '.netloc', WREQ + '.root_path', WREQ + '.relative_uri',
+              WREQ + '.forwarded_scheme', WREQ + '.forwarded_host']
+
+
+def hops_of(parser):
+    return parser.returned[0] if parser.returned else []
+
+
+@harness(PROP, WREQ + '.forwarded_scheme', setup=_base_setup, inline=FWD_INLINE)
+def wsgi_forwarded_scheme(v):
+    env = server_env(v, optional=['HTTP_FORWARDED', 'HTTP_X_FORWARDED_PROTO'], host_value=None)
+    req = wsgi_req(v, env)
+    parser = forwarded_parser(v, max_hops=2, fields=('scheme',))
+    with patched(v, WM, '_parse_forwarded_header', parser):
+        out = v.call(req)
+    escape_only_400(v, out)
+    v.check('first-hop-proto-then-x-forwarded-proto-then-own-scheme', out.exc is None and out.value == spec_forwarded_scheme(env, hops_of(parser)))
+    v.cover('decided')
+
+
+@harness(PROP, WREQ + '.forwarded_host', setup=_base_setup, inline=FWD_INLINE)
+def wsgi_forwarded_host(v):
+    env = server_env(v, optional=['HTTP_FORWARDED', 'HTTP_X_FORWARDED_HOST'])
+    req = wsgi_req(v, env)
+    parser = forwarded_parser(v, max_hops=2, fields=('host',))
+    with patched(v, WM, '_parse_forwarded_header', parser):
+        out = v.call(req)
+    escape_only_400(v, out)
+    v.check('first-hop-host-then-x-forwarded-host-then-own-netloc', out.exc is None and out.value == spec_forwarded_host(env, hops_of(parser)))
+    v.cover('decided')
+
+
+# ---------------------------------------------------------------------------
+# URL composition with memoisation
+
+
+def spec_relative(env, path, qs):
+    root = env.get('SCRIPT_NAME', '')
+    return Ite(Len(qs) > 0, root + path + '?' + qs, root + path)
+
+
+URL_KEYS = ['HTTP_FORWARDED', 'HTTP_X_FORWARDED_PROTO', 'HTTP_X_FORWARDED_HOST']
+
+
+def _url_property(prop, field, forwarded):
+    def h(v):
+        opt = ['SCRIPT_NAME'] + (URL_KEYS if forwarded else [])
+        env = server_env(v, optional=opt)
+        path, qs = v.str('path'), v.str('query_string')
+        req = wsgi_req(v, env, path=path, query_string=qs)
+        parser = forwarded_parser(v, max_hops=1, fields=('host', 'scheme'))
+        with patched(v, WM, '_parse_forwarded_header', parser):
+            out = v.call(req)
+            escape_only_400(v, out)
+            if out.exc is not None:
+                return
+            hops = hops_of(parser)
+            root = env.get('SCRIPT_NAME', '')
+            scheme = spec_forwarded_scheme(env, hops) if forwarded else env['wsgi.url_scheme']
+            netloc = spec_forwarded_host(env, hops) if forwarded else spec_netloc(env)
+            if prop == 'relative_uri':
+                want = spec_relative(env, path, qs)
+            elif prop in ('uri', 'forwarded_uri'):
+                want = scheme + '://' + netloc + spec_relative(env, path, qs)
+            else:
+                want = scheme + '://' + netloc + root
+            v.check('value-is-the-concatenation-of-its-parts', out.value == want)
+            v.check('result-cached', v.get(req, field) is not None and v.get(req, field) == out.value)
+            n1 = len(parser.calls)
+            # the request changes behind the cache's back: a memoised value must not be recomputed
+            clobber(v, env, [k for k in list(env) if k != 'wsgi.url_scheme'])
+            v.set(req, 'path', v.str('path_later'))
+            v.set(req, 'query_string', v.str('query_string_later'))
+            v.set(req, '_cached_forwarded', None)
+            again = v.call(req)
+            v.check('second-access-returns-the-first-value-without-recomputing', again.exc is None and again.value == out.value and len(parser.calls) == n1)
+            v.cover('composed')
+
+    return h
+
+
+for _prop, _field, _fwd in (('uri', '_cached_uri', False), ('prefix', '_cached_prefix', False), ('relative_uri', '_cached_relative_uri', False),
+                            ('forwarded_uri', '_cached_forwarded_uri', True), ('forwarded_prefix', '_cached_forwarded_prefix', True)):
+    harness(PROP, WREQ + '.' + _prop, name='wsgi_' + _prop, setup=_base_setup, inline=FWD_INLINE)(_url_property(_prop, _field, _fwd))
+
+
+@harness(PROP, WREQ + '.url', name='wsgi_url_alias')
+def wsgi_url_alias(v):
+    cls = v.real(WREQ)
+    v.check('url-is-an-alias-of-uri', cls.__dict__['url'] is cls.__dict__['uri'])
+
+
 ASSUMPTIONS = []
 NOT_DECIDED = []
 TRUSTED = []
-KILLS = []
-HARMLESS = []
+KILLS = [
+    ('falcon/request.py', "        try:\n            value_as_int = int(value)\n        except ValueError:\n            msg = 'The value of the header must be a number.'\n            raise errors.HTTPInvalidHeader(msg, 'Content-Length')\n",
+     "        value_as_int = int(value)\n", 'Request.content_length#escape-only-400-class'),
+    ('falcon/request.py', '                if last_num < first_num:\n', '                if last_num <= first_num:\n', 'Request.range#closed-range-value'),
+    ('falcon/request.py', '                first_num, last_num = (-int(last), -1)\n', '                first_num, last_num = (int(last), -1)\n', 'Request.range#suffix-range-value'),
+]
+HARMLESS = [
+]
